@@ -55,6 +55,24 @@ def jobs_for(tier, rnd):
     for c in strat3:
         jobs.append((gid, G.describe(c, 'text'), TX, {'stratum': 'context-depth3'}))
         gid += 1
+    # stratum: one pattern text used case-sensitively AND case-insensitively in the same grammar (every literal keeps
+    # its own flavour wherever else the same characters occur), text and bytes mode, also across rules
+    fl = {}
+    for pat in ('ab', 'a', 'b'):
+        fl[pat] = [('rx', pat), ('irx', pat), ('ilit', pat), ('lit', pat)]
+    TXC = G.texts('abAB', 4)
+    for mode in ('text', 'bytes'):
+        for pat, fs in fl.items():
+            for x in fs:
+                for y in fs:
+                    if x == y:
+                        continue
+                    for e in list(G.binaries(x, y))[:5] + [('seq', ('rep', x, 1, None), y), ('seq', ('expectnot', x), y), ('alt', ('seq', x, ('lit', 'b')), y)]:
+                        jobs.append((gid, G.describe(e, mode), TXC, {'bytes': mode == 'bytes', 'stratum': 'case-flavours'}))
+                        gid += 1
+                    d = f'start = [{G.render(x, mode)}, Y]\nY = {G.render(y, mode)}\n'
+                    jobs.append((gid, d, TXC, {'bytes': mode == 'bytes', 'stratum': 'case-flavours'}))
+                    gid += 1
     return jobs
 
 
